@@ -515,7 +515,9 @@ impl<T: Clone + Eq + Debug + Default> WrappedBlock<T> {
     fn force_flush_line(&mut self) {
         let mut tmp_line = TaggedLine::new();
         mem::swap(&mut tmp_line, &mut self.line);
-        if self.pad_blocks {
+        // A line without any text stays empty (like the blank lines between
+        // blocks); padding it would turn it into content.
+        if self.pad_blocks && !tmp_line.is_empty() {
             let tmp_tag;
             let tag = if let Some(st) = self.spacetag.as_ref() {
                 st
